@@ -18,6 +18,10 @@ def world_candidates(sc):
         c = _clone(sc)
         del c["faults"][i]
         yield c
+    for i in range(len(sc.get("reconfig", []))):
+        c = _clone(sc)
+        del c["reconfig"][i]
+        yield c
     # 2. sessions: halves, then singles
     ss = sc.get("sessions", [])
     if len(ss) > 3:
@@ -41,10 +45,14 @@ def world_candidates(sc):
     if len(cons) > 1:
         c = _clone(sc)
         c["network"]["constraints"] = []
+        c.pop("reconfig", None)
         yield c
     for i in range(len(cons)):
         c = _clone(sc)
+        nm = c["network"]["constraints"][i]["name"]
         del c["network"]["constraints"][i]
+        if "reconfig" in c:
+            c["reconfig"] = [r for r in c["reconfig"] if r["name"] != nm]
         yield c
     # 5. stations without sessions
     used = {s["station"] for s in ss}
@@ -59,6 +67,8 @@ def world_candidates(sc):
                     if k["coeffs"]:
                         keep.append(k)
                 c["network"]["constraints"] = keep
+                if "reconfig" in c:
+                    c["reconfig"] = [r for r in c["reconfig"] if r["name"] in {k["name"] for k in keep}]
                 yield c
     # 6. simplify components
     for i, st in enumerate(sc["network"]["stations"]):
